@@ -10,6 +10,7 @@ import (
 	"fmt"
 	"os"
 	"path/filepath"
+	"strconv"
 	"strings"
 	"time"
 
@@ -26,7 +27,7 @@ const propID = "C16"
 
 const H = world.H
 
-var kinds = []string{"small", "spooled", "cut-spooled", "retry-fail", "redirects", "five-hosts", "discarded", "five-hosts-limited", "discarded-gzip"}
+var kinds = []string{"small", "spooled", "cut-spooled", "retry-fail", "redirects", "five-hosts", "discarded", "five-hosts-limited", "discarded-gzip", "redirect-limit"}
 
 type scen struct {
 	Seq     []string `json:"sequence"`
@@ -83,6 +84,8 @@ func dyn(u string, attempt int) (world.Resp, bool) {
 			return world.Resp{Status: 200, Header: html, Body: sb.String()}, true
 		case "discarded":
 			return world.Resp{Status: 200, Header: html, Body: `<!DOCTYPE html><html><body><img src="` + base + `/limited.png"></body></html>`}, true
+		case "redirect-limit": // a redirect chain longer than --max-redirect, every answer with a 2.2 MiB text body
+			return world.Resp{Status: 302, Header: map[string]string{"Location": base + "/loop1", "Content-Type": "text/plain"}, Body: bigBody}, true
 		case "discarded-gzip": // a gzip-encoded challenge page (discarded, retried) and a gzip-encoded 503
 			return world.Resp{Status: 200, Header: html, Body: `<!DOCTYPE html><html><body><img src="` + base + `/challenge.gz"><img src="` + base + `/boom.gz"></body></html>`}, true
 		case "five-hosts-limited": // more rate-limiting hosts at once than the limiter table holds
@@ -110,6 +113,9 @@ func dyn(u string, attempt int) (world.Resp, bool) {
 		return world.Resp{Status: 500, Header: map[string]string{"Content-Type": "text/plain"}, Body: "oops"}, true
 	case rest == "limited.png":
 		return world.Resp{Status: 429, Header: map[string]string{"Content-Type": "text/plain"}, Body: "slow down"}, true
+	case strings.HasPrefix(rest, "loop"):
+		n, _ := strconv.Atoi(rest[4:])
+		return world.Resp{Status: 302, Header: map[string]string{"Location": fmt.Sprintf("%s/loop%d", base, n+1), "Content-Type": "text/plain"}, Body: bigBody}, true
 	case rest == "r1":
 		return world.Resp{Status: 302, Header: map[string]string{"Location": base + "/r2"}}, true
 	case rest == "r2":
@@ -347,7 +353,7 @@ func main() {
 		"states": total.States, "transitions": total.Transitions, "traces_validated_against_impl": total.Executions,
 		"samples": []any{total.Sample}, "exhaustive": total.Exhaustive, "sequences": len(ss), "alphabet": kinds,
 		"quiescent_states_reached": finals,
-		"explanation": "every sequence of seed kinds up to the length bound (quick 2, thorough 3) over {small page+asset, 2.2 MiB spooled text body, spooled body whose connection breaks mid-way, retry-then-fail, redirect chain, five hosts, discarded 429, five hosts all answering 429, gzip-encoded challenge page and 503} run to quiescence plus one limiter clean-up period on the real pipeline (rate limiter on, virtual clock); the footprint vector (live threads, open bodies, temp files, reactor entries/tokens, limiter buckets, unreleased item bodies) must equal the idle footprint measured before the first seed; limiter table within its bound at every step",
+		"explanation": "every sequence of seed kinds up to the length bound (quick 2, thorough 3) over {small page+asset, 2.2 MiB spooled text body, spooled body whose connection breaks mid-way, retry-then-fail, redirect chain, five hosts, discarded 429, five hosts all answering 429, gzip-encoded challenge page and 503, redirect chain beyond --max-redirect with spooled bodies} run to quiescence plus one limiter clean-up period on the real pipeline (rate limiter on, virtual clock); the footprint vector (live threads, open bodies, temp files, reactor entries/tokens, limiter buckets, unreleased item bodies) must equal the idle footprint measured before the first seed; limiter table within its bound at every step",
 	}, []string{
 		"goroutines = threads owned by the scheduler (every go statement of the instrumented packages); file descriptors are represented by open response bodies and temp files - OS-level fd/goroutine counts of the real process are outside this part",
 		"fixpoint: since every sequence returns to the one idle state, the reachable quiescent states are closed under the alphabet at depth 1",
